@@ -502,10 +502,38 @@ class Inliner:
                         self.failed_sites[key] = self.failed_sites.get(key, 0) + 1
                 # a statement helper called inside a simple statement whose other calls all enclose it (nothing is evaluated
                 # before it that could observe the difference): bind its result first, then inline that binding
-                if isinstance(st, (ast.Expr, ast.Assign, ast.Return, ast.AugAssign)):
+                if isinstance(st, (ast.Expr, ast.Assign, ast.Return, ast.AugAssign)) and st.value is not None:
                     root = st.value
-                    hc = [n for n in ast.walk(root) if isinstance(n, ast.Call) and self.lookup(n, cur_cls)[0] is not None
+                    from .normalize2 import eval_order
+                    hc = [n for n in eval_order(root) if isinstance(n, ast.Call) and self.lookup(n, cur_cls)[0] is not None
                           and not self.lookup(n, cur_cls)[0].is_expr and self.lookup(n, cur_cls)[0].node is not fn]
+                    # several helper calls in one statement: bind them one by one, in evaluation order, when every other call
+                    # encloses one of them (so nothing else is evaluated in between that could tell the difference)
+                    while len(hc) > 1 and hc[0] is not root and not any(any(x is hc[0] for x in ast.walk(a)) for a in hc[1:]):
+                        others = [n for n in ast.walk(root) if isinstance(n, ast.Call) and all(n is not c_ for c_ in hc)]
+                        if not all(any(any(x is c_ for x in ast.walk(o)) for c_ in hc) for o in others):
+                            break
+                        first = hc[0]
+                        h, recv = self.lookup(first, cur_cls)
+                        tmp = ast.Name(id=f"_inl{next(_counter)}_ret", ctx=ast.Store())
+                        pre2 = []
+                        new = self.inline_stmt(h, first, recv, "assign", tmp, pre2)
+                        if new is None:
+                            break
+
+                        class Rep0(ast.NodeTransformer):
+                            def visit_Call(self, n):
+                                if n is first:
+                                    return ast.copy_location(ast.Name(id=tmp.id, ctx=ast.Load()), n)
+                                self.generic_visit(n)
+                                return n
+                        st.value = Rep0().visit(st.value)
+                        root = st.value
+                        out += pre2 + new
+                        key = (h.cls, h.node.name)
+                        self.inlined_sites[key] = self.inlined_sites.get(key, 0) + 1
+                        changed = True
+                        hc = hc[1:]
                     if len(hc) == 1 and hc[0] is not root:
                         target_call = hc[0]
                         others = [n for n in ast.walk(root) if isinstance(n, ast.Call) and n is not target_call]
@@ -1381,7 +1409,48 @@ class Canon(ast.NodeTransformer):
                 return ast.copy_location(vals[0] if len(vals) == 1 else ast.BoolOp(op=op, values=vals), node)
         return node
 
+    def _index_pairs(self, node):
+        # (E(A[i], B[i]) for i in range(min(len(A), len(B))))  ==>  (E(a, b) for a, b in zip(A, B)) ;  range(len(A)) -> for a in A
+        if len(node.generators) != 1 or node.generators[0].ifs or not isinstance(node.generators[0].target, ast.Name):
+            return node
+        g = node.generators[0]
+        it = g.iter
+        if not (isinstance(it, ast.Call) and isinstance(it.func, ast.Name) and it.func.id == "range" and len(it.args) == 1 and not it.keywords):
+            return node
+        b = it.args[0]
+        seqs = None
+        ln = lambda e: e.args[0] if isinstance(e, ast.Call) and isinstance(e.func, ast.Name) and e.func.id == "len" and len(e.args) == 1 else None
+        if ln(b) is not None:
+            seqs = [ln(b)]
+        elif isinstance(b, ast.Call) and isinstance(b.func, ast.Name) and b.func.id == "min" and len(b.args) >= 2 and all(ln(a) is not None for a in b.args):
+            seqs = [ln(a) for a in b.args]
+        if not seqs or any(isinstance(x, ast.Call) for s_ in seqs for x in ast.walk(s_)):
+            return node
+        i = g.target.id
+        texts = [ast.unparse(s_) for s_ in seqs]
+        uses = [x for x in ast.walk(node.elt) if isinstance(x, ast.Name) and x.id == i]
+        subs = [x for x in ast.walk(node.elt) if isinstance(x, ast.Subscript) and isinstance(x.slice, ast.Name) and x.slice.id == i and ast.unparse(x.value) in texts]
+        if not subs or len(subs) != len(uses):
+            return node
+        names = [f"_p{k}_{i}" for k in range(len(seqs))]
+
+        class R(ast.NodeTransformer):
+            def visit_Subscript(self, x):
+                if isinstance(x.slice, ast.Name) and x.slice.id == i and ast.unparse(x.value) in texts:
+                    return ast.copy_location(ast.Name(id=names[texts.index(ast.unparse(x.value))], ctx=ast.Load()), x)
+                self.generic_visit(x)
+                return x
+
+        node.elt = R().visit(node.elt)
+        if len(seqs) == 1:
+            node.generators = [ast.comprehension(target=ast.Name(id=names[0], ctx=ast.Store()), iter=seqs[0], ifs=[], is_async=0)]
+        else:
+            tgt = ast.Tuple(elts=[ast.Name(id=n_, ctx=ast.Store()) for n_ in names], ctx=ast.Store())
+            node.generators = [ast.comprehension(target=tgt, iter=ast.Call(func=ast.Name(id="zip", ctx=ast.Load()), args=seqs, keywords=[]), ifs=[], is_async=0)]
+        return node
+
     def _fuse(self, node):
+        node = self._index_pairs(node)
         # [F(v) for v in (E for x in IT)]  ==>  [F(E) for x in IT]
         if len(node.generators) == 1 and not node.generators[0].ifs and isinstance(node.generators[0].target, ast.Name) \
                 and isinstance(node.generators[0].iter, (ast.GeneratorExp, ast.ListComp)) and len(node.generators[0].iter.generators) == 1:
@@ -1568,6 +1637,38 @@ class AppendLoops(ast.NodeTransformer):
                         out.append(ast.copy_location(ast.Assign(targets=[st.targets[0]], value=comp, lineno=st.lineno), nxt))
                         i += 2
                         continue
+            # X = [..]; ..; X.append(a); ..; X.append(b)   ==>   _x0 = a at its place, ..., X = [.., _x0, _x1] at the last append
+            if isinstance(st, ast.Assign) and len(st.targets) == 1 and isinstance(st.targets[0], ast.Name) and isinstance(st.value, ast.List) \
+                    and not any(isinstance(e, ast.Starred) for e in st.value.elts):
+                x = st.targets[0].id
+                run_, elems, j = [], list(st.value.elts), i + 1
+                napp = 0
+                while j < len(stmts):
+                    s2 = stmts[j]
+                    is_app = isinstance(s2, ast.Expr) and isinstance(s2.value, ast.Call) and isinstance(s2.value.func, ast.Attribute) and s2.value.func.attr == "append" \
+                        and isinstance(s2.value.func.value, ast.Name) and s2.value.func.value.id == x and len(s2.value.args) == 1 and not s2.value.keywords \
+                        and not any(isinstance(n, ast.Name) and n.id == x for n in ast.walk(s2.value.args[0]))
+                    if is_app:
+                        nm = f"_{x}{next(_counter)}"
+                        run_.append(ast.copy_location(ast.Assign(targets=[ast.Name(id=nm, ctx=ast.Store())], value=s2.value.args[0], lineno=s2.lineno), s2))
+                        elems.append(ast.Name(id=nm, ctx=ast.Load()))
+                        napp += 1
+                        j += 1
+                        continue
+                    if isinstance(s2, (ast.Assign, ast.Expr, ast.AugAssign, ast.AnnAssign)) and not any(isinstance(n, ast.Name) and n.id == x for n in ast.walk(s2)):
+                        run_.append(s2)
+                        j += 1
+                        continue
+                    break
+                # trailing statements that do not append belong after the literal
+                while run_ and not (isinstance(run_[-1], ast.Assign) and isinstance(run_[-1].targets[0], ast.Name) and run_[-1].targets[0].id.startswith(f"_{x}")):
+                    run_.pop()
+                    j -= 1
+                if napp >= 2 or (napp == 1 and len(elems) <= 4 and not isinstance(stmts[j] if j < len(stmts) else None, ast.For)):
+                    out += run_
+                    out.append(ast.copy_location(ast.Assign(targets=[st.targets[0]], value=ast.List(elts=elems, ctx=ast.Load()), lineno=st.lineno), st))
+                    i = j
+                    continue
             # t = E ; X = t  |  return t      (t used nowhere else)   ==>   X = E | return E
             if isinstance(st, ast.Assign) and len(st.targets) == 1 and isinstance(st.targets[0], ast.Name) and nxt is not None \
                     and isinstance(nxt, (ast.Assign, ast.Return)) and isinstance(nxt.value, ast.Name) and nxt.value.id == st.targets[0].id \
